@@ -158,6 +158,14 @@ Proof. intros n. unfold reply_ecs_counts. destruct noedns; [intros []|intros [H|
 Lemma reply_one_opt noedns trunc resp : (length (reply_ecs_counts noedns trunc resp) <= 1)%nat.
 Proof. unfold reply_ecs_counts. destruct noedns; cbn; lia. Qed.
 
+(* the byte path never emits a subnet option *)
+Lemma wire_reply_no_ecs noedns cookie nsid keepalive ede l :
+  wire_reply_codes noedns cookie nsid keepalive ede = Some l -> ~ In 8 l.
+Proof.
+  unfold wire_reply_codes. destruct noedns; [discriminate|]. intros H. inversion H; subst l.
+  destruct cookie, nsid, keepalive, ede; cbn; intuition discriminate.
+Qed.
+
 (* the BADVERS reply is a bare OPT *)
 Lemma badvers_reply_clean b remote extra : forall n, In n (badvers_reply_counts b remote extra) -> n = 0.
 Proof.
